@@ -104,6 +104,12 @@ static const pcall CALLS[] = {
     {"adaptive", 1, 4096, "rand8", 0}, {"adaptive", 2, 64, "cluster", 49}, {"adaptive", 3, 64, "fewuniq", 3},
     {"adaptive", 4, 64, "asc16", 0},  {"adaptive", 5, 64, "randw", 0},  {"adaptive", 1, 128, "asc1", 0},
     {"adaptive", 2, 300, "outlast", 0},
+    /* every byte-width class of offsets / indices / values (3, 5, 6, 7 bytes are
+     * the widths no machine word matches) */
+    {"for", 0, 64, "altbits", 24},    {"for", 0, 64, "altbits", 40},    {"for", 0, 64, "altbits", 48},
+    {"for", 0, 64, "altbits", 56},    {"for_batch", 0, 64, "altbits", 40}, {"pfor", 95, 64, "altbits", 40},
+    {"pfor", 90, 64, "altbits", 56},  {"dict", 0, 64, "nine", 0},       {"group", 0, 9, "altbits", 40},
+    {"delta_u", 0, 64, "altbits", 48}, {"rle", 0, 64, "altbits", 40},
     /* inputs long enough for any "only worth it for large arrays" shortcut */
     {"adaptive", -1, 300, "randw", 0}, {"adaptive", -1, 300, "asc16", 0}, {"adaptive", -1, 300, "cluster", 49},
     {"adaptive", -1, 1000, "fewuniq", 3}, {"for", 0, 300, "rand32", 0}, {"pfor", 95, 1000, "cluster", 49},
@@ -298,6 +304,25 @@ static void run_float_call(size_t ci, const char *sched, const char *proc) {
     free(ys);
 }
 
+/* the stack / heap paints of a schedule, once more (directly before a reader) */
+static void repaint(const char *sched, size_t n) {
+    char tmp[512];
+    strncpy(tmp, sched, sizeof(tmp) - 1);
+    tmp[sizeof(tmp) - 1] = 0;
+    char *save = NULL;
+    for (char *tok = strtok_r(tmp, ";", &save); tok; tok = strtok_r(NULL, ";", &save)) {
+        char kind[16], arg[32];
+        if (sscanf(tok, " %15s %31s", kind, arg) != 2) {
+            continue;
+        }
+        if (!strcmp(kind, "stack")) {
+            paint_stack(arg, n);
+        } else if (!strcmp(kind, "heap")) {
+            paint_heap(arg, n);
+        }
+    }
+}
+
 /* the call class being exercised, for the late-crash hook */
 static char g_cur_id[96];
 static const char *g_cur_sched = "", *g_cur_proc = "";
@@ -417,22 +442,50 @@ static void run_call(size_t ci, const char *sched, const char *proc) {
     memset(&o, 0, sizeof(o));
     meta_clear(&o);
     int f = GUARDED(tramp(codec, c->param, dst, xs, x32, n, &o));
-    /* decode what was produced (when it can be decoded by a count-taking reader) */
-    uint64_t *ys = malloc((n + 1) * 8);
-    memset(ys, 0, (n + 1) * 8);
+    /* every reader of what was produced (bulk decoders, random access, block
+     * readers) under the same context perturbation: the paints of the
+     * schedule are applied again directly before each reader, and everything
+     * the readers report (values, counts, faults) is folded into one digest
+     * by capturing the events they would log */
     size_t dn = 0;
     int df = 0;
-    if (!f && codec == C_ADAPTIVE && o.written > 0) {
-        df = GUARDED(dn = varintAdaptiveDecode(dst, ys, n, NULL));
+    uint64_t hy = 1469598103934665603ULL;
+    if (!f && o.written > 0 && o.written <= room) {
+        gbuf src = gb_alloc(o.written);
+        memcpy(src.p, dst, o.written);
+        char *mbuf = NULL;
+        size_t mlen = 0;
+        FILE *keep_f = tr_f;
+        FILE *mem_f = open_memstream(&mbuf, &mlen);
+        for (int k = 0;; k++) {
+            const char *api = full_readers(codec, k);
+            if (!api) {
+                break;
+            }
+            repaint(sched, n);
+            rng_seed(0xDECULL + ci);
+            tr_f = mem_f;
+            run_decode(codec, c->param, api, &src, o.written, o.bits, n, n);
+            tr_f = keep_f;
+            dn++;
+        }
+        repaint(sched, n);
+        rng_seed(0xDECULL + ci);
+        tr_f = mem_f;
+        run_random_access(codec, &src, o.written, n);
+        tr_f = keep_f;
+        fclose(mem_f);
+        for (size_t i = 0; i < mlen; i++) {
+            hy = (hy ^ (uint8_t)mbuf[i]) * 1099511628211ULL;
+        }
+        df = mbuf && strstr(mbuf, "\"fault\":1") ? 1 : 0;
+        free(mbuf);
+        gb_free(&src);
     }
     set_perturb(0x5E);
     uint64_t h = 1469598103934665603ULL;
     for (size_t i = 0; !f && i < o.written && i < room; i++) {
         h = (h ^ dst[i]) * 1099511628211ULL;
-    }
-    uint64_t hy = 1469598103934665603ULL;
-    for (size_t i = 0; i < dn && i < n; i++) {
-        hy = (hy ^ ys[i]) * 1099511628211ULL;
     }
     ev_begin("Call");
     char id[96];
@@ -450,7 +503,6 @@ static void run_call(size_t ci, const char *sched, const char *proc) {
     free(xs);
     free(x32);
     free(dst);
-    free(ys);
 }
 
 int main(int argc, char **argv) {
